@@ -37,7 +37,16 @@ class C04(Prop):
                            {"op": "relabel", "pick": 1, "unit": "s"}, {"op": "consult"}]}
                   for i, (k2, u2, how) in enumerate([("float", "kg", "df_set"), ("text", "text", "df_set"), ("float", "kg", "setitem"),
                                                      ("bool", "onoff", "df_set")])]
-        return reborn + [
+        # a column labelled by a number next to the column labelled by the text that looks like it: every place that
+        # pairs names with units (the register, the per-column lookup, the three writers) must keep the two apart
+        lookalike = [{"names": ["1", "b"], "kinds": ["float", "text"], "nrows": 2, "units": ["s", "text"], "strict": True, "vseed": 70 + i,
+                      "ops": [{"op": how, "col": 1, "kind": k, **({"unit": u} if how == "add_column" else {}),
+                               **({"pos": pos} if how == "df_insert" else {})}, {"op": "consult"},
+                              {"op": "relabel", "pick": pick, "unit": "kg"}, {"op": "consult"}]}
+                     for i, (how, k, u, pos, pick) in enumerate([("add_column", "float", "m", 0, 0), ("df_insert", "float", None, 0, 1),
+                                                                ("df_set", "bool", None, 0, 2), ("add_column", "text", "text", 0, 0),
+                                                                ("df_insert", "int", None, 1, 0)])]
+        return reborn + lookalike + [
             {"names": ["a", "b", "c"], "kinds": ["float", "text", "bool"], "nrows": 2, "units": ["m", "text", "onoff"],
              "strict": True, "vseed": 1, "ops": [{"op": "p_select", "perm": 5, "keep": 3}, {"op": "consult"}]},
             {"names": ["a", "b"], "kinds": ["float", "text"], "nrows": 2, "units": ["m", "text"], "strict": True, "vseed": 2,
